@@ -323,7 +323,7 @@ fn h_cmp_seek_cur_indata() {
 // ------------------------------------------------------------------------------------------
 // H-CMP-R-STEP: one real read() from any consistent state (C01 block bookkeeping, C10, C11)
 // ------------------------------------------------------------------------------------------
-//@ props: C01 C10 C11
+//@ props: C01 C10 C11 C13
 //@ functions: <layers::compress::CompressionLayerReader<R> as std::io::Read>::read (all arms incl. block change recursion); pos_in_stream; sync_inner_with_uncompressed_pos
 //@ bounds: production constants; tables of 1..={BLOCKS} blocks; reader at any position c in [0,len] in state Ready or InData(read = c mod 4MiB or = block size at a block edge); caller buffer 0..=8 bytes; decompressor returns any count <= asked
 //@ stubs: brotli::Decompressor -> nondeterministic count, no data; alloc::fmt::format; From<mla::Error> for io::Error
